@@ -18,10 +18,14 @@ PROP = {
              "keys, empty values), v5 beta extensions (256 -> 8 bits), v5r1 extensions (256 -> 1 bit), highload old queries (64-bit "
              "keys), keys sharing long prefixes; plus truncated data, trailing bits, missing dictionary reference: seqno, attached "
              "state-init hash AND the library's decoding of the data struct (seqno, id, key, flag, last-cleaned, dictionary keys in "
-             "order) vs the model's decode_data; (3) SendV2 against a scripted blockchain interface: account state or "
+             "order) vs the model's decode_data; (2c) histories of 4..9 calls on ONE Wallet object (kind c15.history), every version: "
+             "StateInit(), GetAddress(), NextMessageParams on none / uninit / frozen / active accounts, interleaved with the caller "
+             "overwriting in place what it was handed (data / code / special / library of the returned *StateInit, the Init of "
+             "NextMsgParams, its copy of the address): every answer vs the model and vs a fresh wallet; (3) SendV2 on wallets created "
+             "with / without WithMessageLifetime against a scripted blockchain interface: account state or "
              "state error x 0..3 messages (sometimes max+1) x send error x waiting 0 / 200 ms x seven poll histories (advance at the first, "
              "second, fourth poll, after errors, never, always error, lower-then-equal): result and the projection of the captured message "
-             "(destination, attached state-init hash, seqno in the body, message count) vs model with the logical clock i*wait/10. Oracles "
+             "(destination, attached state-init hash, seqno in the body, message count, expiry relative to the clock) vs model with the logical clock i*wait/10. Oracles "
              "on the implementation: the three APIs agree, address = hash of the state-init cell, workchain = requested, no two different "
              "(version, key, workchain, resolved ids) share an address and equal ones do, init attached iff not active (highload: iff "
              "none/uninit) with seqno 0, for every well-formed active data cell NextMessageParams returns the stored seqno without init and "
@@ -39,7 +43,11 @@ PROP = {
                     "theorems), so active => stored seqno and no init whatever plugins/extensions are installed, otherwise own init and seqno 0 (highload: init iff none/uninit); for EVERY poll history the send returns Ok iff "
                     "some poll before the deadline reports a seqno above the sent one, else the timeout error; with the clock in ticks (a sleep of wait/10 between polls) at most ten polls "
                     "decide (C15_confirm_ten_polls; the harness checks <= 10 real polls); the message is addressed to the wallet itself; a "
-                    "mnemonic is accepted iff it has >= 12 space-separated parts and version byte 0 (C15_seed_accepted_spec). coq/Properties/C15_gen.v re-checks on today's source that every accepted version's code BOC parses "
+                    "mnemonic is accepted iff it has >= 12 space-separated parts and version byte 0 (C15_seed_accepted_spec); SendV2 signs "
+                    "expiry = now + the configured lifetime (C15_api_send_v2_expiry, clock a parameter); a Wallet object keeps nothing "
+                    "between calls: after any history, incl. the caller modifying returned values, every answer is that of a fresh "
+                    "wallet (C15_history_independent; the memoising design that hands its cache out by pointer is refuted in "
+                    "Proofs/WalletHistory.v). coq/Properties/C15_gen.v re-checks on today's source that every accepted version's code BOC parses "
                     "to one root, that the twelve code hashes are pairwise distinct (hence codes_distinct), the constants and the Version "
                     "numbering."),
     'assumptions': ["address_injective assumes the cell hash injective on state-init cells (idealisation of SHA-256, explicit hypothesis)",
